@@ -8,14 +8,16 @@ from gen import i1_line, e_array
 from vlib import Result
 
 ID = "C07"
-LEAN_MODULES = ["NdInterp.Props.C07", "NdInterp.Props.RatTie", "NdInterp.Props.FormulaTie.SplEval", "NdInterp.Props.FormulaTie.PerWrap", "NdInterp.Props.FormulaTie.TabExt", "NdInterp.Props.FormulaTie.Ctl"]
-THEOREM_FILES = [("NdInterp/Props/C07.lean", "C07_"), ("NdInterp/Props/FormulaTie/SplEval.lean", "FT_spl_eval"), ("NdInterp/Props/FormulaTie/PerWrap.lean", "FT_per_wrap"), ("NdInterp/Props/FormulaTie/TabExt.lean", "FT_tab_"), ("NdInterp/Props/FormulaTie/Ctl.lean", "FT_ctl_")]
+LEAN_MODULES = ["NdInterp.Props.C07Fl", "NdInterp.Props.C07", "NdInterp.Props.RatTie", "NdInterp.Props.FormulaTie.SplEval", "NdInterp.Props.FormulaTie.PerWrap", "NdInterp.Props.FormulaTie.TabExt", "NdInterp.Props.FormulaTie.Ctl"]
+THEOREM_FILES = [("NdInterp/Props/C07Fl.lean", "C07_"), ("NdInterp/Props/C02Fl.lean", "C02_eval_"), ("NdInterp/Props/C07.lean", "C07_"), ("NdInterp/Props/FormulaTie/SplEval.lean", "FT_spl_eval"), ("NdInterp/Props/FormulaTie/PerWrap.lean", "FT_per_wrap"), ("NdInterp/Props/FormulaTie/TabExt.lean", "FT_tab_"), ("NdInterp/Props/FormulaTie/Ctl.lean", "FT_ctl_")]
 RULE = ("Periodic boundary + extrapolation at Q, exact: n=3..12, uniform and non-uniform axes, 0..2 trailing axes; each case queries "
         "x, x + kP for k in {+-1, +-2, +-7, +-10^3, +-10^6} for in-range x incl. both ends and points next to them; oracle: all values "
         "of one class are identical and the images of the range ends equal the first (= last) data row. f64: the same with a tolerance "
         "scaled by the derivative bound and |k| ulps of the wrapped argument. Without extrapolation the same spline must reject the "
         "outside images (mode selection). non-trivial = every case")
-PARTIAL = ["'up to rounding of the wrapped argument' at f64 is tested with a tolerance, not bounded by a theorem",
+PARTIAL = ["'up to rounding of the wrapped argument': C07_segment_lipschitz bounds how far the segment value moves when the argument moves inside an "
+           "interval (|dx|/h * (|y_r-y_l|+|a|+|b|)) and C02_eval_rounding the rounding of the evaluation itself; the size of the argument error "
+           "(rem_euclid on floats, q - x0 many periods away) is not modelled, so the f64/f32 comparison stays a test with a tolerance",
            "the periodic system itself (C2 and equal end derivatives of the periodic spline) is covered by C02/C03's exact oracles"]
 ASSUMPTIONS = ["rem_euclid on f64 behaves as documented (trusted); LawfulRemEuclid is proved for the Rat instance the driver executes"]
 KS = [1, -1, 2, -2, 7, -7, 1000, -1000, 10 ** 6, -10 ** 6]
